@@ -2,17 +2,20 @@
 import ast, os
 
 CLAIM = {
- 'text': ('Lean 4 theorems over all DAT contents and all whitespace layouts (dat_parse_print; row_width_mismatch_rejected, '
-          'undeclared_channel_rejected, bad_number_rejected; errors_are_dat) about a line-for-line model of '
-          'DAT_parser._parse_file and its three conversion functions; the model is tied to the source on every run by '
-          '(a) regenerating the regex literals, conversion/dtype key tables, month list, strptime format and two-digit-year '
-          'pivot from the source with ast (a changed literal breaks a theorem) and (b) a correspondence run of '
-          'parse_file / can_parse_file against the model on generated files, their single-line corruptions and a token '
-          'stream for every conversion. The property oracle is evaluated on the implementation alone. Proof is the right '
-          'level: the property quantifies over unbounded texts and layouts.'),
+ 'text': ('Lean 4 theorems, universally quantified over DAT contents and whitespace layouts, about a line-for-line model of '
+          'DAT_parser._parse_file and its three conversion functions: dat_parse_print (parse(print(content, layout)) = the '
+          'content: channels, order, descriptions, units, dtype kind, exact values), dat_layout_independent, errors_are_dat '
+          '(every failure of the model parser is a DAT error, for every text), can_parse_never_raises, '
+          'row_width_mismatch_rejected, undeclared_channel_rejected, bad_number_rejected. The model is tied to the source on '
+          'every run by (a) regenerating the regex literals, conversion/dtype key tables, month list, strptime format and '
+          'two-digit-year test from the source with ast (gen_tables_as_modelled breaks when one changes) and (b) a '
+          'correspondence run of parse_file / can_parse_file, the compiled regexes and every conversion function against the '
+          'model on generated files, their single-line corruptions and token streams. The property oracle is evaluated on '
+          'the implementation alone. Proof is the right level: the property quantifies over unbounded texts and layouts.'),
  'note': ('Trusted: Lean kernel; model<->code correspondence on the cases of the run; str.strip/split/translate, re, '
           'float(), int(), time.gmtime, datetime constructors and strptime are transcribed into the model, not verified. '
-          'Rounding decimal -> binary64 is Python float(); the model keeps the exact decimal.'),
+          'Rounding decimal -> binary64 is Python float(); the model keeps the exact decimal. Not a theorem: the value of '
+          'can_parse_file on printed files (correspondence + oracle only); bad_number_rejected is stated on the scanner state.'),
  'technique': 'Lean 4 proof (structural induction on lines/tokens, omega for calendar arithmetic) + model-implementation correspondence',
  'design_ref': 'DESIGN.md section 6 C14',
 }
@@ -290,7 +293,7 @@ def gen_tokens(ctx):
     """yield (kind, token, want) — want is the canonical value a correct conversion gives, 'reject', or None (correspondence only)"""
     rng, dat = ctx.rng, _gen()
     # floats
-    for _ in range(ctx.n(1500, 15000)):
+    for _ in range(ctx.n(4000, 40000)):
         x = dat.gen_num(rng)
         yield 'f', dat.num_token(x), 'f' + dat.dec_to_hex(*dat.num_fraction(x))
     specials = ['inf', '-inf', '+inf', 'Infinity', '-INFINITY', 'nan', '-nan', '+NaN', 'infinit', 'in', 'na', 'nann', 'infinityy',
@@ -308,7 +311,7 @@ def gen_tokens(ctx):
     for b in bounds:
         yield 'u', str(b), None
     import datetime
-    for _ in range(ctx.n(1500, 15000)):
+    for _ in range(ctx.n(4000, 40000)):
         ymd = dat.gen_ymd(rng, 1, 9999)
         hms = dat.gen_hms(rng)
         n = dat.unix_time(ymd + hms)
@@ -323,7 +326,7 @@ def gen_tokens(ctx):
     for _ in range(ctx.n(500, 5000)):
         yield 'u', ''.join(rng.choice('0123456789_+-a') for _ in range(rng.randint(1, 12))), None
     # dates
-    for _ in range(ctx.n(2500, 25000)):
+    for _ in range(ctx.n(5000, 50000)):
         y, m, d = dat.gen_ymd(rng, 1951, 2050)
         c = dat.gen_cell(rng, 'wild')
         yield 'd', dat.date_token(c, [y, m, d]), 'D%d.%d.%d' % (y, m, d)
@@ -344,7 +347,7 @@ def gen_tokens(ctx):
     for _ in range(ctx.n(500, 5000)):
         yield 'd', ''.join(rng.choice('0123456789-JanFebDecMay') for _ in range(rng.randint(1, 10))), None
     # times
-    for _ in range(ctx.n(2500, 25000)):
+    for _ in range(ctx.n(5000, 50000)):
         h, mi, s = dat.gen_hms(rng)
         c = dat.gen_cell(rng, 'wild')
         yield 't', dat.time_token(c, [h, mi, s]), 't%d.%d.%d' % (h, mi, s)
@@ -522,7 +525,7 @@ def run(ctx):
     run_lexical(ctx, D)
     run_tokens(ctx, D)
     run_bundled(ctx, D)
-    run_files(ctx, D, ctx.n(400, 4000), ctx.n(250, 2500))
+    run_files(ctx, D, ctx.n(1500, 12000), ctx.n(700, 6000))
 
 
 def search(ctx):
